@@ -337,14 +337,18 @@ fn free_local_port() -> Option<SocketAddr> {
 fn check_wire(c: &Corpus, r: &mut Rng, asynchronous: bool, p: &mut Part) -> Result<(), String> {
     let udp = r.chance(1, 2);
     let mut m = Model::default();
-    let local = free_local_port().ok_or("no free local port")?;
+    // a quarter of the connections go to an IPv6 peer (if this machine has an IPv6 loopback)
+    let v6 = r.chance(1, 4) && TcpListener::bind("[::1]:0").is_ok();
+    let host = if v6 { "[::1]:0" } else { "127.0.0.1:0" };
+    let local = UdpSocket::bind(host).ok().and_then(|s| s.local_addr().ok()).ok_or("no free local port")?;
     // peers
-    let listener = TcpListener::bind("127.0.0.1:0").map_err(|e| e.to_string())?;
-    let peer_udp = UdpSocket::bind("127.0.0.1:0").map_err(|e| e.to_string())?;
+    let listener = TcpListener::bind(host).map_err(|e| e.to_string())?;
+    let peer_udp = UdpSocket::bind(host).map_err(|e| e.to_string())?;
     let remote = if udp { peer_udp.local_addr() } else { listener.local_addr() }.map_err(|e| e.to_string())?;
     // either the transport is chosen first and options follow, or options and other transport choices (relay
     // included) come first and the transport that is finally connected is chosen last: later calls override
-    let final_proto = if udp { Call::Udp(r.chance(2, 3)) } else { Call::Tcp };
+    // (without a local address the builder binds an IPv4 wildcard socket: that form is used with IPv4 peers only)
+    let final_proto = if udp { Call::Udp(v6 || r.chance(2, 3)) } else { Call::Tcp };
     let proto_last = r.chance(1, 2);
     let mut calls = if proto_last { vec![] } else { vec![final_proto.clone()] };
     for _ in 0..r.usize_below(12) {
@@ -368,7 +372,7 @@ fn check_wire(c: &Corpus, r: &mut Rng, asynchronous: bool, p: &mut Part) -> Resu
         calls.push(cl);
     }
     p.evaluations += 1;
-    let label = format!("{}-{}-{}", if asynchronous { "async" } else { "blocking" }, if udp { "udp" } else { "tcp" }, mode_name(m.compressed));
+    let label = format!("{}-{}{}-{}", if asynchronous { "async" } else { "blocking" }, if udp { "udp" } else { "tcp" }, if v6 { "6" } else { "" }, mode_name(m.compressed));
     let replay = json!({"label": label, "calls": calls.iter().map(|c| format!("{:?}", c)).collect::<Vec<_>>()});
     let img = reference_image(c, &m);
     p.distinct(&(label.clone(), &img));
